@@ -212,7 +212,10 @@ func (ck *Check) Handle(c *Case) *Violation {
 		if c.Project2 != nil {
 			cc.Project2 = c.Project2.Clone()
 		}
-		nt, classes = ck.Classify(&cc)
+		// ... and it must not end the run when the code under test panics: the oracle is the judge of that
+		if sig, _, _ := Safely(func() { nt, classes = ck.Classify(&cc) }); sig != "" {
+			nt, classes = false, []string{"classification-panicked"}
+		}
 	}
 	for i := range classes {
 		classes[i] = ck.Name + ":" + classes[i]
